@@ -64,6 +64,23 @@ func ruleTabPrec(c *Ctx, r *R) {
 		return
 	}
 	gotok := goOperatorTokens()
+	// every row of the table that is spelled like a Go binary operator and has a Led takes part,
+	// whether or not the compiler maps it to an opcode of its own (`&^` handled by a Led that
+	// builds `& ^`): the tokenizer merges operator characters into whatever the table has a row for
+	{
+		have := map[string]bool{}
+		for _, op := range ops {
+			have[op] = true
+		}
+		var extra []string
+		for k, row := range rows {
+			if t, ok := gotok[k]; ok && t.Precedence() > 0 && row.HasLbp && row.Led != nil && !have[k] {
+				extra = append(extra, k)
+			}
+		}
+		sort.Strings(extra)
+		ops = append(ops, extra...)
+	}
 	for _, op := range ops {
 		if _, ok := gotok[op]; !ok || gotok[op].Precedence() == 0 {
 			r.undecided("op "+op, "-", "binary operator has no Go precedence")
